@@ -180,6 +180,11 @@ def jobs_C01(tier, seed):
             s = scn(base_transfers()[name], cfg(max_request_concurrency=conc, max_in_memory_upload_chunks=chunks),
                     seed=seed)
             jobs.append(job(f'sched {name} conc={conc} chunks={chunks}', s, BD(tier)['PLAIN2' if conc == 2 else 'PLAIN'], want, max_execs=400000))
+    # several transfers requested back to back on one (threaded) manager, one or two submission threads
+    for subc in (1, 2):
+        for trs in ([T_cp('o5'), T_cp('o1')], [T_up('path', 3), T_up('seekable', 6, start=2)], [T_up('nonseekable', 5), T_cp('o4'), T_up('path', 5)]):
+            s = scn(copy.deepcopy(trs), cfg(max_request_concurrency=2, max_submission_concurrency=subc), seed=seed)
+            jobs.append(job(f'sched {len(trs)} transfers {[t["op"] for t in trs]} subconc={subc}', s, BD(tier)['PLAIN'], want, max_execs=400000))
     for name in ('up-mp-nonseekable', 'up-mp-path', 'copy-mp'):
         s = scn(base_transfers()[name], cfg(max_request_concurrency=2), seed=seed,
                 faults={'sites': ['body:retry']})
